@@ -2142,3 +2142,104 @@ func c09R11(c *Ctx, r *Report) {
 	})
 	r.Floor(rule, n, 5, "arithmetic clauses of evaluateHIRBinary")
 }
+
+// ---- C01.R20: every by-value parameter that arrives as a scalar has its entry slot -------------------------------
+
+func init() {
+	lateInits = append(lateInits, func() {
+		props["C01"].Quick = append(props["C01"].Quick, c01R20)
+		props["C07"].Quick = append(props["C07"].Quick, c01R20)
+		props["C01"].Explanation += " (R20) buildFuncBody gives an entry slot to every by-value parameter that is handed over as the value itself — numbers, enum tags, the handles of dynamic arrays and maps: a slot made at the first `&'p` or assignment is not seen by reads that were lowered before it (the condition of the enclosing loop)."
+	})
+}
+
+func c01R20(c *Ctx, r *Report) {
+	const rule = "C01.R20"
+	r.Describe(rule, "mir/gen.buildFuncBody: in the loop that fills b.paramSlots, the guard that skips a parameter without a slot accepts (does not skip) PrimitiveType, EnumType, MapType and ArrayType — either by type assertions in the guard or by the `return true` clauses of the predicate it calls")
+	fn := c.LookupFn(pkgMIRGen, "(*functionBuilder).buildFuncBody")
+	if !r.Anchor(rule, fn != nil && fn.Decl.Body != nil, "mir/gen.buildFuncBody") {
+		return
+	}
+	info := fn.Info()
+	var loop *ast.RangeStmt
+	ast.Inspect(fn.Decl.Body, func(x ast.Node) bool {
+		rs, ok := x.(*ast.RangeStmt)
+		if !ok {
+			return true
+		}
+		writes := false
+		ast.Inspect(rs.Body, func(y ast.Node) bool {
+			if as, ok := y.(*ast.AssignStmt); ok {
+				for _, l := range as.Lhs {
+					if ix, ok := ast.Unparen(l).(*ast.IndexExpr); ok {
+						if f := fieldOf(info, ix.X); f != nil && f.Name() == "paramSlots" {
+							writes = true
+						}
+					}
+				}
+			}
+			return true
+		})
+		if writes {
+			loop = rs
+		}
+		return true
+	})
+	if !r.Anchor(rule, loop != nil, "buildFuncBody: the loop that fills b.paramSlots") {
+		return
+	}
+	accepted := map[string]bool{}
+	for _, st := range loop.Body.List {
+		ifs, ok := st.(*ast.IfStmt)
+		if !ok || !thenTerminates(ifs) {
+			continue
+		}
+		// `if _, isT := X.(*types.T); !isT { continue }`
+		if init, ok := ifs.Init.(*ast.AssignStmt); ok && len(init.Rhs) == 1 {
+			if ta, ok := ast.Unparen(init.Rhs[0]).(*ast.TypeAssertExpr); ok && ta.Type != nil {
+				if u, ok := ast.Unparen(ifs.Cond).(*ast.UnaryExpr); ok && u.Op == token.NOT {
+					if nt := namedOf(info.TypeOf(ta.Type)); nt != nil {
+						accepted[nt.Obj().Name()] = true
+					}
+				}
+			}
+		}
+		// `if !P(param.Type) { continue }`
+		if u, ok := ast.Unparen(ifs.Cond).(*ast.UnaryExpr); ok && u.Op == token.NOT {
+			if cl, ok := ast.Unparen(u.X).(*ast.CallExpr); ok {
+				if p := c.FnOf(callee(info, cl)); p != nil && p.Decl != nil && p.Decl.Body != nil {
+					pinfo := p.Info()
+					ast.Inspect(p.Decl.Body, func(y ast.Node) bool {
+						cc, ok := y.(*ast.CaseClause)
+						if !ok {
+							return true
+						}
+						returnsNonFalse := false
+						for _, s2 := range cc.Body {
+							ast.Inspect(s2, func(z ast.Node) bool {
+								if ret, ok := z.(*ast.ReturnStmt); ok && len(ret.Results) == 1 {
+									if v := constOf(pinfo, ret.Results[0]); v == nil || boolVal(v) {
+										returnsNonFalse = true
+									}
+								}
+								return true
+							})
+						}
+						if returnsNonFalse {
+							for _, t := range caseTypes(pinfo, cc) {
+								if nt := namedOf(t); nt != nil {
+									accepted[nt.Obj().Name()] = true
+								}
+							}
+						}
+						return true
+					})
+				}
+			}
+		}
+	}
+	for _, want := range []string{"PrimitiveType", "EnumType", "MapType", "ArrayType"} {
+		r.Check(accepted[want], rule, fn.Name(), "a by-value "+want+" parameter gets its entry slot", c.pos(loop.Pos()),
+			"a parameter of this kind has no stack slot until the first `&'p` or assignment is lowered; the loop condition lowered before it keeps reading the incoming value: `fn walk(c: Color) -> i32 { let steps := 0; while c != Color::Blue && steps < 100 { next(&'c); steps = steps + 1; } return steps; }` returned 100 for 2, and `while len(a) < 3 { a = more(a); … }` with a []i32 parameter never saw the new a")
+	}
+}
